@@ -1,6 +1,7 @@
 import PGA.Drv.Util
 import PGA.Model.Paths
 import PGA.Model.LibTable
+import PGA.Model.LibThermo
 import PGA.Gen.LibData
 namespace PGA.Drv.C14
 open Lean PGA.Drv PGA.Paths PGA.LibTable
@@ -32,6 +33,21 @@ def handle (op : String) (j : Json) : Option (Except String Json) :=
       | none => throw s!"unknown library {lib}"
       | some (_, gs) =>
         pure <| Json.arr (gs.map fun g => Json.mkObj [("name", g.name), ("wf", wfGroup g)]).toArray
+  | "c14.correlations" => some do
+      -- every record of a library through the constructors of the thermo model (C14-T1): outcome and effective range
+      let lib ← str j "lib"
+      match PGA.Gen.LibData.allGroups.find? (fun p => p.1 == lib) with
+      | none => throw s!"unknown library {lib}"
+      | some (_, gs) =>
+        let ip : PGA.Thermo.Interp := ⟨fun _ => 0, fun _ _ => 0, fun _ _ => 0, fun _ _ => 0⟩
+        pure <| Json.arr (gs.filter (·.hasThermo) |>.map fun g =>
+          let out : Json := match g.correlation ip with
+            | .ok c => Json.mkObj [("ok", true), ("hasCorr", c.corr.isSome), ("npts", c.cp.length)]
+            | .error e => Json.mkObj [("ok", false), ("err", Json.str (reprStr e))]
+          let rng : Json := match effRange g with
+            | some (lo, hi) => Json.arr #[jrat lo, jrat hi]
+            | none => Json.null
+          Json.mkObj [("name", g.name), ("out", out), ("range", rng)]).toArray
   | "c14.remaps" => some do
       let lib ← str j "lib"
       match PGA.Gen.LibData.allRemaps.find? (fun p => p.1 == lib) with
